@@ -84,7 +84,7 @@ func genPageCount(rng *rand.Rand) int {
 }
 
 func genFault(rng *rand.Rand, nPages int) *Fault {
-	f := &Fault{Where: []string{"fetch", "iter"}[rng.IntN(2)], Page: rng.IntN(nPages), Times: []int{1, 1, 2, -1}[rng.IntN(4)]}
+	f := &Fault{Where: []string{"fetch", "iter"}[rng.IntN(2)], Page: rng.IntN(nPages), Times: []int{1, 1, 2, -1}[rng.IntN(4)], Kind: []string{"", "notfound", "empty"}[rng.IntN(3)]}
 	if rng.IntN(4) == 0 {
 		f.Page = 0
 	}
@@ -206,7 +206,7 @@ func withEvents(base *Spec, out *[]*Spec) {
 		for _, w := range []string{"fetch", "iter"} {
 			for _, t := range []int{1, 2, -1} {
 				c := clone(base)
-				c.Fault = &Fault{Where: w, Page: p, Times: t}
+				c.Fault = &Fault{Where: w, Page: p, Times: t, Kind: []string{"", "notfound", "empty"}[(p+t+len(w)+3)%3]}
 				*out = append(*out, c)
 			}
 		}
